@@ -20,7 +20,7 @@ MUTANTS = [
  ("done-before-callback", "toasty/pyramid.py", "        callback(pos)\n        done_queue.put(pos)", "        done_queue.put(pos)\n        callback(pos)", ["C01", "C02"], []),
  ("visit-set-before-join-thread", "toasty/pyramid.py", "        ready_queue.close()\n        ready_queue.join_thread()\n        done_event.set()\n\n        for w in workers:\n            w.join()\n\n        check_workers(workers)\n\n\nclass PyramidReductionIterator", "        ready_queue.close()\n        done_event.set()\n        ready_queue.join_thread()\n\n        for w in workers:\n            w.join()\n\n        check_workers(workers)\n\n\nclass PyramidReductionIterator", ["C03"], ["C01"]),
  ("visit-no-join-thread", "toasty/pyramid.py", "        ready_queue.close()\n        ready_queue.join_thread()\n        done_event.set()\n\n        for w in workers:\n            w.join()\n\n        check_workers(workers)\n\n\nclass PyramidReductionIterator", "        ready_queue.close()\n        done_event.set()\n\n        for w in workers:\n            w.join()\n\n        check_workers(workers)\n\n\nclass PyramidReductionIterator", ["C03"], []),
- ("visit-worker-exit-on-empty", "toasty/pyramid.py", "            args = ready_queue.get(True, timeout=1)\n        except Empty:\n            if done_event.is_set():\n                break\n            continue", "            args = ready_queue.get(True, timeout=1)\n        except Empty:\n            break", ["C03"], []),
+ ("visit-worker-exit-on-empty", "toasty/pyramid.py", "            args = ready_queue.get(True, timeout=1)\n        except Empty:\n            if finishing:\n                break\n            continue", "            args = ready_queue.get(True, timeout=1)\n        except Empty:\n            break", ["C03"], []),
  ("walk-worker-exit-on-empty", "toasty/pyramid.py", "            pos = ready_queue.get(True, timeout=1)\n        except Empty:\n            if done_event.is_set():\n                break\n            continue", "            pos = ready_queue.get(True, timeout=1)\n        except Empty:\n            break", ["C01"], []),
  ("transform-set-before-join", "toasty/transform.py", "    queue.close()\n    queue.join_thread()\n    done_event.set()", "    queue.close()\n    done_event.set()\n    queue.join_thread()", ["C03"], []),
  ("visit-no-worker-join", "toasty/pyramid.py", "        done_event.set()\n\n        for w in workers:\n            w.join()\n\n        check_workers(workers)\n\n\nclass PyramidReductionIterator", "        done_event.set()\n\n        check_workers(workers)\n\n\nclass PyramidReductionIterator", ["C03"], []),
@@ -28,6 +28,8 @@ MUTANTS = [
  ("workers-never-checked", "toasty/par_util.py", "        if code is not None and code != 0:", "        if False:", ["C19"], ["C03"]),
  ("walk-no-idle-check", "toasty/pyramid.py", "                    try:\n                        check_workers(workers)\n                    except Exception:\n                        done_event.set()\n                        raise\n                    continue", "                    continue", ["C19"], ["C01"]),
  ("transform-no-final-check", "toasty/transform.py", "    check_workers(workers)\n", "    pass\n", ["C19"], ["C03"]),
+ ("visit-flag-after-timeout", "toasty/pyramid.py", "            args = ready_queue.get(True, timeout=1)\n        except Empty:\n            if finishing:", "            args = ready_queue.get(True, timeout=1)\n        except Empty:\n            if done_event.is_set():", ["C03"], ["C01"]),
+ ("transform-flag-after-timeout", "toasty/transform.py", "        except Empty:\n            if finishing:", "        except Empty:\n            if done_event.is_set():", ["C03"], []),
  ("opposite-parity-swap", "toasty/merge.py", "SLICES_OPPOSITE_PARITY = [\n    (slice(256, None), slice(None, 256)),\n    (slice(256, None), slice(256, None)),", "SLICES_OPPOSITE_PARITY = [\n    (slice(256, None), slice(256, None)),\n    (slice(256, None), slice(None, 256)),", ["C02"], ["C01"]),
  ("no-buf-clear", "toasty/merge.py", "        if self._buf is not None:\n            self._buf.clear()", "        if self._buf is not None:\n            pass", ["C02"], ["C01"]),
  ("min-of-max", "toasty/merge.py", "max_value = max(max_values)", "max_value = min(max_values)", ["C14"], ["C02"]),
